@@ -471,3 +471,38 @@ fn add(self, rhs: Self) -> (r: Linear)
                 proofs=[(('before', r'let __h1 = chain_refs'), 'let ghost ch = self.terms@ + rhs.terms@;\n        '),
                         (('before', r'Self \{\s*terms: __t'), final_proof)],
                 post_subs=[('terms: btree_into_terms(terms),', 'terms: __t,')])
+
+
+def linear_new():
+    final_proof = '''let ghost n = terms.len() as int; let ghost am = acc(ch, n);
+        let __t = btree_into_terms(merged);   // R20c
+        proof {
+            if pairs_fin(terms@) {
+                assert(terms_fin(ch)) by { assert forall|i: int| 0 <= i < ch.len() implies fin((#[trigger] ch[i]).coefficient) by { assert(ch[i].coefficient == terms[i].1); } }
+                assert(am.dom() =~= merged@.dom());
+                assert(lists_map(__t@, __t.len() as int, am));
+                assert forall|m: Map<u64, F64>| lin_sum(__t@, __t.len() as int, m) == msum(am, m) by { lemma_list_sum(__t@, __t.len() as int, am, m); }
+            }
+        }
+        '''
+    return Unit('Linear::new', 'linear.rs', 'new', impl=r'impl Linear \{', sig='pub fn new(terms: impl Iterator<Item = (u64, f64)>, constant: f64) -> Self', anyhow=False,
+                wrap=('impl Linear {', '}'),
+                header='''#[verifier::loop_isolation(false)]
+pub fn new(terms: Vec<(u64, F64)>, constant: F64) -> (r: Linear)
+        // R22: the iterator parameter is instantiated at Vec.  The result IS the specified merge of the given (id, coefficient) pairs: ids strictly increasing,
+        // one term per key of acc(..) with its value (equal ids accumulated, entries with |sum| <= EPSILON dropped), the constant as given
+        ensures
+            r.constant == constant,
+            forall|i: int, j: int| 0 <= i < j < r.terms.len() ==> r.terms[i].id < r.terms[j].id,
+            pairs_fin(terms@) ==> lists_map(r.terms@, r.terms.len() as int, acc(pairs_terms(terms@), terms.len() as int))
+                && forall|m: Map<u64, F64>| #![trigger lin_all(r.terms@, m)] lin_all(r.terms@, m) == msum(acc(pairs_terms(terms@), terms.len() as int), m),''',
+                rsubs=[(r'let mut merged = BTreeMap::new\(\);', 'let mut merged: BTreeMap<u64, F64> = BTreeMap::new();', 1),
+                       (r'(?s)merged\.into_iter\(\)\.map\(\|\(id, coefficient\)\| Term \{ id, coefficient \}\)\.collect\(\)', 'btree_into_terms(merged)', 1)],
+                loops=[dict(kind='for', it='it_1', rebind='(__e.0, __e.1)',
+                            body_proof=' proof { assert(*__e == terms[it_1.index@ as int]); assert(ch[it_1.index@ as int].id == __e.0 && ch[it_1.index@ as int].coefficient == __e.1); }',
+                            inv='''invariant
+                ch == pairs_terms(terms@), __h1@ == terms@,
+                terms_fin(ch) ==> map_matches(merged@, acc(ch, it_1.index@ as int)),''')],
+                proofs=[(('before', r'let __h1 = terms;'), 'let ghost ch = pairs_terms(terms@);\n        '),
+                        (('before', r'Self \{\s*terms: __t'), final_proof)],
+                post_subs=[('terms: btree_into_terms(merged),', 'terms: __t,')])
